@@ -35,8 +35,9 @@ with bare lxml):
      in the part XML instead.
   c. `c:ser/c:idx/@val` unique and `c:ser/c:order/@val` unique across the chart.
   d. replace_data preservation: before the first replace_data of a path a formatting marker is planted
-     through the public API on every series (solid fill colour), the legend, the title and the axes. After
-     the checked call: markers of surviving series / legend / title / axes still read back; the c14n of
+     through the public API on every series (solid fill colour), the legend, the title and the axes. The
+     markers are read back just before and just after the checked call: those of surviving series, legend,
+     title and axes must read the same; the c14n of
      the part minus `c:tx|c:cat|c:val|c:xVal|c:yVal|c:bubbleSize` of series is unchanged for every series
      present before and after (matched by c:idx), and the part with all series removed and plots without a
      surviving series removed is unchanged. min(before, supplied) series must survive.
@@ -395,38 +396,40 @@ def plant(chart):
     return planted
 
 
-def markers_missing(chart, planted, survivors):
-    from pptx.enum.chart import XL_LEGEND_POSITION
+def read_markers(chart, planted):
+    """The planted markers as the public API reports them now. Only reads that do not create elements on a
+    chart that went through plant(): every series has a solid fill (clones inherit it)."""
+    marks = {"series": {}}
+    for p in chart.plots:
+        for s in p.series:
+            try:
+                marks["series"][str(s.index)] = str(s.format.fill.fore_color.rgb)
+            except Exception as e:  # noqa: BLE001
+                marks["series"][str(s.index)] = "unreadable: %s" % type(e).__name__
+    legend = chart.legend if chart.has_legend else None
+    marks["legend"] = None if legend is None else (str(legend.position), legend.include_in_layout)
+    marks["title"] = chart.chart_title.text_frame.text if chart.has_title else None
+    marks["cat_axis"] = bool(chart.category_axis.has_major_gridlines) if planted["cat_axis"] else None
+    marks["val_axis"] = bool(chart.value_axis.has_minor_gridlines) if planted["val_axis"] else None
+    return marks
+
+
+def markers_missing(chart, planted, marks_before, survivors):
+    """Markers (as read just BEFORE the checked call) that no longer read back for the surviving series,
+    the legend, the title and the axes."""
     bad = []
     try:
-        by_idx = {}
-        for p in chart.plots:
-            for s in p.series:
-                by_idx[str(s.index)] = s
-        for idx, rgb in planted["series"].items():
-            if idx not in survivors:
-                continue
-            s = by_idx.get(idx)
-            got = None
-            if s is not None:
-                try:
-                    got = str(s.format.fill.fore_color.rgb)
-                except Exception as e:  # noqa: BLE001
-                    got = "raised %r" % (e,)
-            if got != rgb:
-                bad.append(("marker-series-fill", "series idx %s: planted fill %s, now %s" % (idx, rgb, got)))
-                break
-        if planted["legend"] and not (chart.has_legend and chart.legend.position == XL_LEGEND_POSITION.TOP
-                                      and chart.legend.include_in_layout is False):
-            bad.append(("marker-legend", "legend marker (position TOP, not in layout) lost"))
-        if planted["title"] and not (chart.has_title and chart.chart_title.text_frame.text == MARK_TITLE):
-            bad.append(("marker-title", "title marker lost"))
-        if planted["cat_axis"] and not chart.category_axis.has_major_gridlines:
-            bad.append(("marker-axis", "category-axis major gridlines marker lost"))
-        if planted["val_axis"] and not chart.value_axis.has_minor_gridlines:
-            bad.append(("marker-axis", "value-axis minor gridlines marker lost"))
+        now = read_markers(chart, planted)
     except Exception as e:  # noqa: BLE001
-        bad.append(("marker-read-raised", "reading markers raised %r" % (e,)))
+        return [("marker-read-raised", "reading markers raised %r" % (e,))]
+    for idx in sorted(survivors, key=str):
+        was = marks_before["series"].get(idx)
+        if was is not None and now["series"].get(idx) != was:
+            bad.append(("marker-series-fill", "series idx %s: fill was %s before the call, now %s" % (idx, was, now["series"].get(idx))))
+            break
+    for key, name in (("legend", "marker-legend"), ("title", "marker-title"), ("cat_axis", "marker-axis"), ("val_axis", "marker-axis")):
+        if marks_before[key] is not None and now[key] != marks_before[key]:
+            bad.append((name, "%s marker was %r before the call, now %r" % (key, marks_before[key], now[key])))
     return bad
 
 
@@ -600,6 +603,9 @@ def exec_case(case, emit, part=None, check_all=False, slides=None):
         last = si == len(steps) - 1
         checked = last or check_all
         data = S.build(spec)
+        marks_before = None
+        if checked and planted is not None and xcharts(part_root(chart)):
+            marks_before = read_markers(chart, planted)  # read first, snapshot the XML afterwards
         before = part_root(chart)
         if not xcharts(before):
             # error state: an earlier replace_data (reported by its own path) left c:plotArea without any
@@ -651,8 +657,8 @@ def exec_case(case, emit, part=None, check_all=False, slides=None):
         pres, survivors = preservation(before, after, n_new)
         for aspect, detail in pres:
             emit("C07|preserve|%s|%s|%s" % (aspect, trend, nser), "%s: %s" % (desc, detail))
-        if planted is not None:
-            for aspect, detail in markers_missing(chart, planted, survivors):
+        if marks_before is not None:
+            for aspect, detail in markers_missing(chart, planted, marks_before, survivors):
                 emit("C07|preserve|%s|%s|%s" % (aspect, trend, nser), "%s: %s" % (desc, detail))
         if last:
             info["state"] = hashlib.sha1(canon(after)).hexdigest()[:16]
